@@ -386,4 +386,11 @@ def main_wrapper(fn):
     except Machinery as e:
         print("MACHINERY: " + str(e))
         sys.exit(2)
+    except SystemExit:
+        raise
+    except BaseException:
+        import traceback
+        print("MACHINERY: internal error of the check (never a verdict)")
+        traceback.print_exc()
+        sys.exit(2)
     sys.exit(rc)
